@@ -258,7 +258,10 @@ def check(prog: Program, tier: str) -> Result:
             "safe-callable inference starts from a set free of impure/stateful builtins and adds a function only if "
             "all its non-returning statements and returned expressions are effect-free; (R16.7) consumers delete on "
             "the safe polarity; (R16.8) the loop context travels with every recursive is_blocking call; (R16.9) the analysers do not "
-            "mutate their arguments (shared whitelist). Not decided: reachability proper (nested break/try/with-suppress) and the answers for "
+            "mutate their arguments (shared whitelist); (R16.10) a break of a `while True:` loop is searched at any depth in if / with / try / match "
+            "children; (R16.11) delete_unreachable_code deletes a whole if/while only when nothing of it runs; (R16.12) the statement that ends the "
+            "scan of a function body is checked for effects; (R16.13) builtins the module redefines leave the initial safe set. "
+            "Not decided: reachability proper (with-suppress, exceptions) and the answers for "
             "covered fields."),
         rule_text="instances = (analyser, ast kind) pairs, loop/if branches of is_blocking, consumer sites; non-trivial = kinds that can receive the unsafe answer",
     )
